@@ -151,27 +151,43 @@ func runFltExh(c *core.Ctx) {
 		}
 		miss = missing(copies, filterFields)
 		c.Check(len(miss) == 0, []string{"C02"}, fname(c, match), "matcher-fields-read", P.Pos(match.Pos()), "Match/Done consult all 7 conditions ("+setList(copies)+")", fmt.Sprintf("Match/LimitMatch/Done never consult condition(s) %v", miss))
-		// each copy is built from the like-named filter field
+		// each copy is built from the like-named filter field: the value stored into the
+		// matcher's field is the filter field itself, a set built from its elements by a
+		// helper, or a map (filled directly or through a local variable) keyed by them
 		var wrong []string
 		for _, f := range filterFields {
 			ok := false
+			fromField := func(k string) bool { return strings.Contains(k, ctor.Params[0].Name()+"."+f) }
+			// the containers that end up in .f.F
+			var targets []ssa.Value
 			an.Instrs(ctor, func(in ssa.Instruction) {
-				switch x := in.(type) {
-				case *ssa.Store:
-					if strings.HasSuffix(an.PathOf(x.Addr), ".f."+f) && an.PathOf(x.Val) == "p:"+ctor.Params[0].Name()+"."+f {
-						ok = true
-					}
-					// the set is built by a helper: its keys, in the constructor's terms
-					if call := an.CallOf(x.Val); call != nil && strings.HasSuffix(an.PathOf(x.Addr), ".f."+f) {
-						for _, k := range setBuilderKeys(c, call) {
-							if strings.Contains(k, ctor.Params[0].Name()+"."+f) {
-								ok = true
-							}
+				st, isStore := in.(*ssa.Store)
+				if !isStore || !strings.HasSuffix(an.PathOf(st.Addr), ".f."+f) {
+					return
+				}
+				if an.PathOf(st.Val) == "p:"+ctor.Params[0].Name()+"."+f {
+					ok = true
+				}
+				if call := an.CallOf(st.Val); call != nil {
+					for _, k := range setBuilderKeys(c, call) {
+						if fromField(k) {
+							ok = true
 						}
 					}
-				case *ssa.MapUpdate:
-					if strings.HasSuffix(an.PathOf(x.Map), ".f."+f) || strings.Contains(an.PathOf(x.Map), ".f."+f) {
-						if strings.HasPrefix(an.PathOf(x.Key), "p:"+ctor.Params[0].Name()+"."+f) || strings.Contains(an.PathOf(x.Key), ctor.Params[0].Name()+"."+f) {
+				}
+				targets = append(targets, an.Sources(ctor, st.Val)...)
+			})
+			an.Instrs(ctor, func(in ssa.Instruction) {
+				mu, isMU := in.(*ssa.MapUpdate)
+				if !isMU || !fromField(an.PathOf(mu.Key)) {
+					return
+				}
+				if strings.Contains(an.PathOf(mu.Map), ".f."+f) {
+					ok = true
+				}
+				for _, src := range an.Sources(ctor, mu.Map) {
+					for _, t := range targets {
+						if src == t {
 							ok = true
 						}
 					}
